@@ -33,7 +33,7 @@ def main():
         import traceback
         traceback.print_exc()
         return 3
-    return R.finish(a.prop, a.tier, seed, results, t0, update_ledger=a.update_ledger)
+    return R.finish(a.prop, a.tier, seed, results, t0, update_ledger=a.update_ledger, partial=bool(a.only))
 
 
 if __name__ == "__main__":
